@@ -194,6 +194,102 @@ def multimodal_nd(rng, n):
 def table(rows): return f"{len(rows)} " + " ".join(flist(r) for r in rows)
 
 
+def _nm_request(rng, n, e, info, kinds=("nm1", "nmd", "nm")):
+    """one request (text without the tolerance) for a bowl from quad_nd"""
+    s = info["scale"]
+    start = [cj + s * 10 ** rng.uniform(-1, 1.5) * rng.gauss(0, 1) for cj in info["c"]]
+    delta = s * 10 ** rng.uniform(-2, 2) * rng.choice([-1, 1])
+    k = rng.choice(kinds)
+    if k == "nm1": return f"nm1 {flist(start)} {hx(delta)} {e}"
+    if k == "nmd": return f"nmd {flist(start)} {flist([delta * 10 ** rng.uniform(-1, 1) * rng.choice([-1, 1]) for _ in range(n)])} {e}"
+    return f"nm {table([[x + abs(delta) * rng.gauss(0, 1) for x in start] for _ in range(n + 1)])} {e}"
+
+
+def seq_case(rng, long_run):
+    """call history: several calls in one process on one or several Minimization objects, 1-D calls in between.
+    long_run: one object takes so many calls that their evaluation counts add up to one to three times NMAX = 5000."""
+    tols = [1e-4, 1e-6, 1e-8, 1e-10, 1e-12]
+    if long_run:
+        nobj = rng.choice([1, 1, 2]); ftols = [rng.choice([1e-8, 1e-10, 1e-12]) for _ in range(nobj)]
+        ncalls = rng.randint(28, 60); dims = [rng.choice([3, 4, 5])] * ncalls if rng.random() < 0.5 else [rng.choice([2, 3, 4, 5, 6]) for _ in range(ncalls)]
+    else:
+        nobj = rng.choice([1, 1, 2, 3]); ftols = [rng.choice(tols) for _ in range(nobj)]
+        ncalls = rng.randint(2, 6); dims = [rng.choice([1, 2, 3, 4, 6]) for _ in range(ncalls)]
+        if rng.random() < 0.3: dims.sort(reverse=True)                     # larger, then smaller requests
+    calls = []; infos = []; prev = None
+    for k in range(ncalls):
+        r = rng.random()
+        if prev is not None and r < 0.2:                                   # the identical request again, on the same or on another object
+            txt, info, ob = prev
+            ob = ob if rng.random() < 0.5 else rng.randrange(nobj)
+            calls.append(f"{ob} {txt}"); infos.append(dict(info, ftol=ftols[ob])); continue
+        if not long_run and r < 0.35:                                      # a 1-D call in between
+            kind = rng.choice(["quadratic", "cosh", "lj"]); e, info = obj1d(rng, kind)
+            sc = info["scale"]; cc = info["c"]
+            xl = cc * rng.uniform(0.75, 2.5) if kind == "lj" else cc + sc * rng.uniform(-8, 8)
+            xr = cc * rng.uniform(0.75, 2.5) if kind == "lj" else xl + rng.choice([-1, 1]) * sc * 10 ** rng.uniform(-3, 0.5)
+            if xl == xr: xr = xl + sc
+            calls.append(f"-1 fmin {hx(xl)} {hx(xr)} {hx(rng.choice(tols))} {e}"); infos.append(info); continue
+        n = dims[k]; e, info = quad_nd(rng, n)
+        ob = rng.randrange(nobj)
+        txt = _nm_request(rng, n, e, info)
+        info = dict(info, n=n)
+        calls.append(f"{ob} {txt}"); infos.append(dict(info, ftol=ftols[ob])); prev = (txt, info, ob)
+    line = f"seq {nobj} {' '.join(hx(t) for t in ftols)} {len(calls)} " + " ".join(calls)
+    return Case(line, ("seq", "long-history" if long_run else "short-history", f"objects{nobj}"), info={"calls": infos})
+
+
+def nest_case(rng):
+    """re-entrancy: the objective of the outer minimisation runs a minimisation itself, F(x) = min_z g(x, z);
+    g(x, z) = sum_i lam_i (u_i.(x-a))^2 + sum_j m_j (z_j - b_j - w_j.(x-a))^2 + d is jointly strictly convex, so F(x) = q(x - a) + d."""
+    outer = rng.choice(["nm1", "nm1", "nmd", "nm", "fmin"])
+    inner = rng.choice(["nm1", "nm1", "fmin"])
+    n = 1 if outer == "fmin" else rng.choice([1, 2, 2, 3]); k = 1 if inner == "fmin" else rng.choice([1, 2, 3])
+    s = 10 ** rng.uniform(-2, 2); sz = 10 ** rng.uniform(-1, 1)
+    kappa = 10 ** rng.uniform(0, 2)
+    acoef = 10 ** rng.uniform(-1, 1) / s ** 2; nat = acoef * s * s
+    lam = [acoef * (kappa ** (i / (n - 1)) if n > 1 else 1.0) for i in range(n)]; rng.shuffle(lam)
+    U = []
+    while len(U) < n:
+        w = [rng.gauss(0, 1) for _ in range(n)]
+        for u in U:
+            dp = sum(x * y for x, y in zip(w, u)); w = [x - dp * y for x, y in zip(w, u)]
+        nr = math.sqrt(sum(x * x for x in w))
+        if nr > 1e-3: U.append([x / nr for x in w])
+    a = [rng.choice([0.0, s * rng.uniform(-3, 3)]) for _ in range(n)]
+    b = [rng.choice([0.0, sz * rng.uniform(-3, 3)]) for _ in range(k)]
+    W = [[rng.choice([0.0, (sz / s) * rng.uniform(-1, 1)]) for _ in range(n)] for _ in range(k)]
+    mz = [nat / sz ** 2 * 10 ** rng.uniform(-0.5, 0.5) for _ in range(k)]
+    d = nat * rng.uniform(0.5, 3)
+    terms = []
+    for l, u in zip(lam, U):
+        terms.append(f"* {C(l)} {sq(add([f'* {C(uj)} - v {j} {C(aj)}' for j, (uj, aj) in enumerate(zip(u, a))]))}")
+    for j in range(k):
+        shift = add([C(b[j])] + [f"* {C(W[j][i])} - v {i} {C(a[i])}" for i in range(n) if W[j][i] != 0.0])
+        terms.append(f"* {C(mz[j])} {sq(f'- v {n + j} {shift}')}")
+    g = f"+ {add(terms)} {C(d)}"
+    ftol = rng.choice([1e-3, 1e-4, 1e-6, 1e-8])
+    if inner == "nm1":
+        ftol_in = rng.choice([t for t in (1e-10, 1e-12, 1e-13) if t <= ftol * 1e-4])
+        z0 = [bj + sz * rng.uniform(-3, 3) for bj in b]
+        itxt = f"nm1 {hx(ftol_in)} {flist(z0)} {hx(sz * 10 ** rng.uniform(-1, 0.5) * rng.choice([-1, 1]))} {rng.choice([0, 1])}"
+        inner_rel = 2 * (k + 1) * ftol_in       # the inner run stops when its vertex values agree to ftol_in (same accounting as _nm_converged)
+    else:
+        tol_in = rng.choice([1e-8, 1e-10])
+        zl = b[0] + sz * rng.uniform(-3, 3); zr = zl + rng.choice([-1, 1]) * sz * 10 ** rng.uniform(-1, 0.5)
+        itxt = f"fmin {hx(zl)} {hx(zr)} {hx(tol_in)}"
+        inner_rel = 64 * EPS + 4e4 * tol_in ** 2  # m (2 tol |z*|)^2 relative to F >= d: m z*^2 / F stays below 1e4 on the sampled region
+    start = [aj + s * 10 ** rng.uniform(-0.5, 1) * rng.gauss(0, 1) for aj in a]
+    delta = s * 10 ** rng.uniform(-1, 1) * rng.choice([-1, 1])
+    info = {"c": a, "d": d, "mu": 2 * min(lam) * 0.98, "lmax": 2 * max(lam) * 1.02, "scale": s, "kappa": kappa, "ftol": ftol, "n": n, "inner_rel": inner_rel}
+    if outer == "fmin":
+        xl = start[0]; xr = xl + delta
+        otxt = f"fmin {hx(xl)} {hx(xr)} {hx(rng.choice([1e-4, 1e-6, 3e-8]))}"
+    else:
+        otxt = f"{outer} {hx(ftol)} " + _nm_request(rng, n, "", dict(info), kinds=(outer,)).split(" ", 1)[1].rstrip()
+    return Case(f"nest {otxt} {itxt} {g}", ("nest", f"outer-{outer}", f"inner-{inner}", f"dim{n}+{k}"), info=info)
+
+
 def generate(rng, tier):
     cs = []
     big = tier != "quick"
@@ -264,6 +360,11 @@ def generate(rng, tier):
             pp = [[x + s * rng.gauss(0, 1) for x in start] for _ in range(m)]
             if rng.random() < 0.15: pp[rng.randrange(m)] = list(pp[0])           # duplicate vertex: ties in the scan
             cs.append(Case(f"nm {hx(ftol)} {table(pp)} {e}", ("nm", "multimodal", f"dim{n}", "extra-vertices" if m != n + 1 else "simplex")))
+    # ---- call history: several calls in one process, on one or several objects (short runs; runs whose evaluation counts pass NMAX)
+    for _ in range(600 if big else 70): cs.append(seq_case(rng, False))
+    for _ in range(60 if big else 6): cs.append(seq_case(rng, True))
+    # ---- re-entrancy: the objective itself runs a minimisation (profiled objective)
+    for _ in range(500 if big else 60): cs.append(nest_case(rng))
     # ---- guard of the deltas overload (mismatched lengths must exit)
     for _ in range(60 if big else 20):
         n = rng.choice([1, 2, 3, 5]); k = rng.choice([0, n - 1, n + 1, 2 * n])
@@ -313,9 +414,92 @@ def _parse_case(c):
     return {"op": op, "ftol": ftol, "pp": pp, "f": parse(t, p)[0], "guard": guard, "start": start, "deltas": ds}
 
 
+def _read_nm_request(t, v, p, op, ftol, with_f=True):
+    """the arguments of one Nelder-Mead request starting at token p (after the operation name and, for single calls, the tolerance)"""
+    if op == "nm":
+        pp, p = _rd_table(v, p); start = ds = None; guard = False
+    else:
+        start, p = _rd_list(v, p)
+        if op == "nmd": ds, p = _rd_list(v, p)
+        else: ds = [v[p]] * len(start); p += 1
+        guard = len(ds) != len(start)
+        pp = ([list(start)] + [[(x + ds[i]) if j == i else x for j, x in enumerate(start)] for i in range(len(start))]) if not guard else []
+    P = {"op": op, "ftol": ftol, "pp": pp, "guard": guard, "start": start, "deltas": ds}
+    if with_f: P["f"], p = parse(t, p)
+    return P, p
+
+
+def _parse_seq(c):
+    t = c.line.split(); v = parse_vals(c.line)
+    nobj = v[1]; ftols = v[2:2 + nobj]; p = 2 + nobj
+    ncalls = v[p]; p += 1
+    calls = []
+    for _ in range(ncalls):
+        ob = v[p]; kind = t[p + 1]; p += 2
+        if kind in ("fmin", "fmax"):
+            f, q = parse(t, p + 3)
+            calls.append({"op": kind, "obj": ob, "xl": v[p], "xr": v[p + 1], "tol": v[p + 2], "f": f}); p = q
+        else:
+            P, p = _read_nm_request(t, v, p, kind, ftols[ob]); P["obj"] = ob; calls.append(P)
+    return calls
+
+
+def _parse_seq_out(calls, v):
+    outs = []; p = 0
+    for cl in calls:
+        if p >= len(v): break
+        if v[p] != "C": raise ValueError("seq output: call marker expected")
+        p += 1
+        if cl["op"] in ("fmin", "fmax"):
+            x = v[p]; tr, p = _rd_list(v, p + 1); outs.append({"x": x, "trace": tr})
+        else:
+            pmin, p = _rd_list(v, p); fmin = v[p]; p += 1
+            y, p = _rd_list(v, p); simplex, p = _rd_table(v, p); nfunc = v[p]; p += 1
+            trace, p = _rd_table(v, p); same = v[p]; p += 1
+            outs.append({"nm": (pmin, fmin, y, simplex, nfunc, trace), "same": same, "trace": trace})
+    return outs
+
+
+def _parse_nest(c):
+    t = c.line.split(); v = parse_vals(c.line)
+    outer = t[1]; R = {"outer": outer}
+    if outer == "fmin":
+        R.update(xl=v[2], xr=v[3], tol=v[4]); p = 5
+    else:
+        R["P"], p = _read_nm_request(t, v, 3, outer, v[2], with_f=False)
+    R["inner"] = t[p]
+    if t[p] == "nm1":
+        R["ftol_in"] = v[p + 1]; z0, q = _rd_list(v, p + 2); R.update(z0=z0, din=v[q], shared=v[q + 1]); p = q + 2
+    else:
+        R.update(zl=v[p + 1], zr=v[p + 2], tol_in=v[p + 3]); p += 4
+    R["g"], p = parse(t, p)
+    if outer != "fmin": R["P"]["f"] = None
+    return R
+
+
+def _parse_nest_out(R, v):
+    if R["outer"] == "fmin":
+        x = v[0]; tr, p = _rd_list(v, 1); vals, p = _rd_list(v, p)
+        return {"x": x, "trace": tr, "vals": vals, "fx": v[p]}
+    pmin, p = _rd_list(v, 0); fmin = v[p]; p += 1
+    y, p = _rd_list(v, p); simplex, p = _rd_table(v, p); nfunc = v[p]; p += 1
+    trace, p = _rd_table(v, p); vals, p = _rd_list(v, p); fy, p = _rd_list(v, p)
+    return {"nm": (pmin, fmin, y, simplex, nfunc, trace), "vals": vals, "fy": fy, "trace": trace}
+
+
 def nontrivial(c, io):
     if io.startswith(("CRASH", "SANITIZER", "TIMEOUT")): return False
     op = c.line.split()[0]
+    if op in ("seq", "nest"):
+        if io.startswith("EXIT"): return False
+        try:
+            if op == "seq":
+                outs = _parse_seq_out(_parse_seq(c), parse_vals(io))
+                return len(outs) >= 2 and sum(len(o["trace"]) for o in outs) >= 24
+            R = _parse_nest(c); O = _parse_nest_out(R, parse_vals(io))
+            return len(O["trace"]) >= (9 if R["outer"] == "fmin" else len(R["P"]["pp"]) + 12)
+        except Exception:
+            return False
     if io.startswith("EXIT"): return "guard-mismatch" in c.tags
     v = parse_vals(io)
     if op.startswith("f"):
@@ -366,6 +550,8 @@ def predicates(c, io):
     out = []
     op = c.line.split()[0]
     if io.startswith(("CRASH", "SANITIZER", "TIMEOUT", "HARNESSERR")): return out
+    if op == "seq": return _pred_seq(c, io)
+    if op == "nest": return _pred_nest(c, io)
     P = _parse_case(c)
     info = c.info
     if op.startswith("f"):
@@ -407,34 +593,50 @@ def predicates(c, io):
     if io.startswith("EXIT"):
         if info.get("mu"): out.append((f"{op}:exit", f"{op} terminated the process (NMAX exceeded) on a convex quadratic bowl (dim {info['n']}, condition {info['kappa']:.3g}, ftol {info['ftol']:g})"))
         return out
-    pmin, fmin, y, simplex, nfunc, trace = _parse_nm_out(io)
+    return _pred_nm(op, P, info, *_parse_nm_out(io))
+
+
+def _pred_nm(op, P, info, pmin, fmin, y, simplex, nfunc, trace, vals=None, fy=None):
+    """the clauses of the property on one returned Nelder-Mead call.  The objective is re-evaluated in Python (same libm, bit for bit); for a
+    profiled objective (nest) the values the implementation's objective returned during the run (vals) and returned again at the reported
+    simplex after the run (fy) take that place."""
+    out = []
     f = P["f"]; pp = P["pp"]; m = len(pp)
-    fy = [f(r) for r in simplex]
+    if fy is None: fy = [f(r) for r in simplex]
     if any(math.isnan(t) for t in fy + y): return out
     if len(simplex) != m or len(y) != m: out.append((f"{op}:shape", "the reported simplex / values do not have one entry per vertex")); return out
     if fy != y:
         k = next(i for i in range(m) if fy[i] != y[i])
-        out.append((f"{op}:values-consistent", f"reported y[{k}] = {y[k]!r} but f(simplex[{k}]) = {fy[k]!r}"))
-    if not (pmin == simplex[0] and fmin == y[0] and f(pmin) == fmin):
-        out.append((f"{op}:reported-state", f"returned point / fmin / simplex[0] / y[0] are not the same vertex: f(returned) = {f(pmin)!r}, fmin = {fmin!r}, y[0] = {y[0]!r}"))
+        out.append((f"{op}:values-consistent", f"reported y[{k}] = {y[k]!r} but f(simplex[{k}]) = {fy[k]!r} (simplex[{k}] = {simplex[k]!r})"))
+    fp = f(pmin) if vals is None else (fy[0] if pmin == simplex[0] else math.nan)
+    if not (pmin == simplex[0] and fmin == y[0] and fp == fmin):
+        out.append((f"{op}:reported-state", f"returned point / fmin / simplex[0] / y[0] are not the same vertex: f(returned) = {fp!r}, fmin = {fmin!r}, y[0] = {y[0]!r}"))
     if any(y[0] > t for t in y): out.append((f"{op}:best-first", f"y[0] = {y[0]!r} is not the smallest vertex value {min(y)!r}"))
-    f0 = [f(r) for r in pp]
     if trace[:m] != pp: out.append((f"{op}:initial-simplex", "the first evaluations are not the vertices of the stated initial simplex"))
+    ft = [f(r) for r in trace] if vals is None else vals
+    if len(ft) != len(trace): out.append((f"{op}:shape", "one objective value per evaluation expected")); return out
+    f0 = ft[:m]
     if not any(math.isnan(t) for t in f0) and fmin > min(f0):
         out.append((f"{op}:not-worse", f"fmin = {fmin!r} is worse than the best initial vertex value {min(f0)!r}"))
-    ft = [f(r) for r in trace]
     if not any(math.isnan(t) for t in ft) and fmin != min(ft):
         k = ft.index(min(ft))
         out.append((f"{op}:best-of-all-evaluations", f"evaluation {k} gave {ft[k]!r}, the reported minimum is {fmin!r}"))
+    # every reported vertex is a point at which the objective was evaluated, with the value it returned there
+    if not out and not any(math.isnan(t) for t in ft):
+        seen = {}
+        for r, t in zip(trace, ft): seen[tuple(r)] = t          # the last value at a repeated point (F is a function: they agree)
+        for k in range(m):
+            if seen.get(tuple(simplex[k])) != y[k]:
+                out.append((f"{op}:vertex-was-evaluated", f"simplex[{k}] = {simplex[k]!r} with y = {y[k]!r} is not one of the evaluated points with that value")); break
     n = len(pp[0])
     if m == n + 1 and nfunc != len(trace) - m:
-        out.append((f"{op}:nfunc", f"nfunc = {nfunc} but the objective was evaluated {len(trace) - m} times after the initial simplex"))
+        out.append((f"{op}:nfunc", f"nfunc = {nfunc} but the objective was evaluated {len(trace) - m} times after the initial simplex in this call"))
     if info.get("mu") is not None and not out:
         out += _nm_converged(op, info, pmin, fmin, y, nfunc)
     return out
 
 
-def _nm_converged(op, info, pmin, fmin, y, nfunc):
+def _nm_converged(op, info, pmin, fmin, y, nfunc, extra_rel=0.0):
     """convergence on a strictly convex quadratic bowl f = q(x - c) + d, smallest Hessian eigenvalue mu.
     The termination test guarantees spread = y_hi - y_lo < ftol*(|y_hi| + |y_lo| + 1e-10)/2 =: ftol_abs over the final simplex.
     'Implied by the tolerance': the returned (best) vertex has value excess f - d <= K*ftol_abs + resolution with K = 2*(n+1)
@@ -447,7 +649,7 @@ def _nm_converged(op, info, pmin, fmin, y, nfunc):
     if not (yhi - ylo <= ftol_abs * (1 + 1e-12) + 0.0):
         out.append((f"{op}:terminated-within-ftol", f"returned with fractional range above ftol: spread {yhi-ylo!r}, ftol_abs {ftol_abs!r}"))
     K = 2 * (n + 1)
-    resol = 16 * EPS * (abs(d) + abs(fmin))
+    resol = (16 * EPS + extra_rel) * (abs(d) + abs(fmin))      # extra_rel: relative error of a profiled objective (its inner minimisation)
     excess = fmin - d
     dist = math.sqrt(sum((a - b) ** 2 for a, b in zip(pmin, info["c"])))
     bound = math.sqrt(2 * (K * ftol_abs + resol) / mu) + 8 * EPS * max(abs(t) for t in info["c"] + pmin)
@@ -456,3 +658,63 @@ def _nm_converged(op, info, pmin, fmin, y, nfunc):
         out.append((f"{op}:converged:{how}", f"quadratic bowl dim {n} condition {info['kappa']:.3g} ftol {ftol:g}: returned point at distance {dist:.3g} from the minimiser, "
                     f"implied bound {bound:.3g} (value excess {excess:.3g}, ftol_abs {ftol_abs:.3g})"))
     return out
+
+
+# ------------------------------------------------------------------ call history (seq) and profiled objectives (nest)
+def _pred_seq(c, io):
+    """several calls in one process.  Every call is judged by the clauses of a single call (the statement does not restrict itself to the first
+    call on an object); in addition the answer must be the answer of a fresh object (the harness repeats the call on one and compares bit for bit)."""
+    out = []
+    calls = _parse_seq(c); infos = c.info.get("calls", [{}] * len(calls))
+    if io.startswith("EXIT"):
+        if all(i.get("mu") is not None or i.get("kind") for i in infos):
+            out.append(("seq:exit", f"a sequence of {len(calls)} calls, each a convex quadratic bowl (or a unimodal 1-D bowl), on {c.line.split()[1]} object(s) terminated the process"))
+        return out
+    outs = _parse_seq_out(calls, parse_vals(io))
+    if len(outs) != len(calls): return [("seq:shape", "one answer per call expected")]
+    for k, (cl, info, o) in enumerate(zip(calls, infos, outs)):
+        if cl["op"] in ("fmin", "fmax"):
+            sense = 1 if cl["op"] == "fmin" else -1
+            pv = _pred_1d(c, io, cl, o["x"], o["trace"], sense, cl["op"])
+            if info.get("kind") and not pv:
+                x = o["x"]; tol1 = abs(cl["tol"]) * abs(x) + 2.0 ** -52
+                dist = min(abs(x - xs) for xs in info["xstar"]); bound = 2 * tol1 + info["res"](x)
+                if not (dist <= bound) and not _flat_in_doubles(cl["f"], info, o["trace"], bound):
+                    pv.append((f"{cl['op']}:converged", f"{info['kind']} bowl with minimiser {info['xstar'][0]!r}: returned {x!r}, distance {dist:.3g} > 2*tol1 + resolution = {bound:.3g}"))
+        else:
+            pv = _pred_nm(cl["op"], cl, info, *o["nm"])
+            if o["same"] != 1:
+                pv.append(("seq:same-as-fresh", f"the answer differs from the answer of the same request on a fresh object (nfunc reported {o['nm'][4]}, {len(o['trace']) - len(cl['pp'])} evaluations after the initial simplex)"))
+        out += [(sig, f"call {k + 1} of {len(calls)} (object {cl['obj']}): {msg}") for sig, msg in pv]
+    return out
+
+
+def _pred_nest(c, io):
+    """F(x) = min_z g(x, z) with g a strictly convex quadratic in (x, z): F(x) = q(x - a) + d exactly.  Consistency and descent are judged on the values
+    the implementation's objective returned; convergence of the outer run on the closed form (the inner run's error enters the resolution)."""
+    out = []
+    R = _parse_nest(c); info = c.info
+    if io.startswith("EXIT"):
+        return [("nest:exit", f"the {R['outer']} minimisation of a profiled strictly convex quadratic bowl (inner minimisation by {R['inner']}) terminated the process")]
+    O = _parse_nest_out(R, parse_vals(io))
+    a = info["c"]; d = info["d"]
+    if R["outer"] == "fmin":
+        x = O["x"]; tr = O["trace"]; vals = O["vals"]
+        if len(tr) < 4 or tr[0] != R["xl"] or tr[1] != R["xr"] or len(vals) != len(tr): return [("nest-fmin:trace", "the evaluation trace does not start with the two starting abscissae")]
+        if any(math.isnan(t) for t in vals + [O["fx"]]): return out
+        if x not in tr: out.append(("nest-fmin:returned-evaluated", f"the returned point {x!r} was never evaluated"))
+        elif vals[tr.index(x)] != O["fx"]: out.append(("nest-fmin:objective-is-a-function", f"F({x!r}) was {vals[tr.index(x)]!r} during the run and is {O['fx']!r} after it"))
+        if not (O["fx"] <= vals[0] and O["fx"] <= vals[1]):
+            out.append(("nest-fmin:not-worse", f"returned x = {x!r} has F = {O['fx']!r}, worse than the start values {vals[0]!r}, {vals[1]!r}"))
+        if not out:
+            tol1 = abs(R["tol"]) * abs(x) + 2.0 ** -52
+            res = math.sqrt(2 * (16 * EPS + info["inner_rel"]) * (abs(d) + abs(O["fx"])) / info["mu"]) + 8 * EPS * max(abs(a[0]), abs(x))
+            if not (abs(x - a[0]) <= 2 * tol1 + res):
+                out.append(("nest-fmin:converged", f"profiled quadratic with minimiser {a[0]!r}: returned {x!r}, distance {abs(x - a[0]):.3g} > 2*tol1 + resolution = {2 * tol1 + res:.3g}"))
+        return out
+    P = R["P"]
+    pv = _pred_nm("nest-" + R["outer"], P, {}, *O["nm"], vals=O["vals"], fy=O["fy"])
+    if not pv and info.get("mu") is not None:
+        pmin, fmin, y, simplex, nfunc, trace = O["nm"]
+        pv += _nm_converged("nest-" + R["outer"], info, pmin, fmin, y, nfunc, extra_rel=info["inner_rel"])
+    return pv
